@@ -3,40 +3,52 @@ import os
 import vf
 from _ctlreg import par, trace_actions, path_cover as big_path_cover
 
-INVS = "TypeOK AtMostOneRegistered ThreadsOnlyWhenKept RunningImpliesRegistered ItemsFromKept"
+INVS = "TypeOK AtMostOneRegistered ThreadsOnlyWhenKept RunningImpliesRegistered NoDeadGenerationItems ItemsFromKept"
 PROPS = "RejectedDeliversNothing StaleTeardownHarmless"
 DEVS = ["DevCleanupByIdentityOnStaleCallback", "DevTeardownDeregistersByIdentity", "DevRegisterReplaces", "DevRejectedStillReads",
-        "DevKeepaliveDisconnectsByIdentity", "DevRegisterCheckThenAct"]
-# instance in which each deviation is checked (MaxLink, MaxAnn, MaxApi, MaxRelay, KaOf, MaxKa, SplitRegister)
-DEVCFG = {d: (2, 0, 0, 1, ["a"], 1, False) for d in DEVS}
-DEVCFG["DevRegisterCheckThenAct"] = (2, 0, 0, 0, [], 0, True)
+        "DevKeepaliveDisconnectsByIdentity", "DevRegisterCheckThenAct", "DevSkipCleanupWhenSuperseded"]
+# instance in which each deviation is checked (MaxLink, MaxAnn, MaxApi, MaxRelay, KaOf, MaxKa, SplitRegister, ApiOf)
+DEVCFG = {d: (2, 0, 0, 1, ["a"], 1, False, []) for d in DEVS}
+DEVCFG["DevRegisterCheckThenAct"] = (2, 0, 0, 0, [], 0, True, [])
+DEVCFG["DevSkipCleanupWhenSuperseded"] = (2, 0, 1, 1, [], 0, False, ["a"])
 SITE = {"DevCleanupByIdentityOnStaleCallback": "agent.handlePeerDisconnect",
         "DevTeardownDeregistersByIdentity": "peer.Manager.handleDisconnect",
         "DevRegisterReplaces": "peer.Manager.registerConnection",
         "DevRejectedStillReads": "peer.Manager.registerConnection",
         "DevKeepaliveDisconnectsByIdentity": "peer.Manager.keepaliveLoop",
-        "DevRegisterCheckThenAct": "peer.Manager.registerConnection"}
+        "DevRegisterCheckThenAct": "peer.Manager.registerConnection",
+        "DevSkipCleanupWhenSuperseded": "peer.Manager.handleDisconnect"}
 HFILES = ["common/common_test.go.tmpl", "agent/cmesh_test.go", "agent/ctlreg_await_test.go", "agent/peerreg_test.go"]
 EXTRA = {"peer": ["peer/peerreg_export.go"]}
 
 
-def cfg(maxlink, maxann, maxapi, maxrelay, kaof, maxka, split, dev=(), emit=False, invs=INVS, props=PROPS):
+def cfg(maxlink, maxann, maxapi, maxrelay, kaof, maxka, split, apiof, dev=(), emit=False, invs=INVS, props=PROPS):
     return ("CONSTANTS MaxLink = %d MaxAnn = %d MaxApi = %d MaxRelay = %d KaOf = {%s} MaxKa = %d SplitRegister = %s "
-            "Dev = {%s} Emit = %s\n"
+            "ApiOf = {%s} Dev = {%s} Emit = %s\n"
             "INIT Init\nNEXT Next\nVIEW view\nACTION_CONSTRAINT EmitEdge\n%s%s" % (
                 maxlink, maxann, maxapi, maxrelay, ",".join('"%s"' % a for a in kaof), maxka, "TRUE" if split else "FALSE",
+                ",".join('"%s"' % a for a in apiof),
                 ",".join('"%s"' % d for d in dev),
                 "TRUE" if emit else "FALSE", ("INVARIANTS " + invs + "\n") if invs else "",
                 ("PROPERTIES " + props + "\n") if props else ""))
 
 
 def model(ctx):
-    # (MaxLink, MaxAnn, MaxApi, MaxRelay, KaOf, MaxKa, SplitRegister)
-    small = (2, 0, 0, 1, ["a"], 1, False) if ctx.quick() else (2, 1, 0, 1, ["a"], 1, False)      # every transition replayed
-    big = (2, 0, 0, 1, ["a", "b"], 1, True) if ctx.quick() else (2, 1, 1, 1, ["a", "b"], 2, True)  # exhaustive check only
+    # (MaxLink, MaxAnn, MaxApi, MaxRelay, KaOf, MaxKa, SplitRegister, ApiOf)
+    if ctx.quick():
+        small = (2, 0, 0, 1, ["a"], 1, False, [])                 # every transition replayed: keepalive failures ...
+        apiinst = (2, 0, 1, 1, [], 0, False, ["a"])               # ... and Manager.Disconnect (unregister without callback)
+        bigs = [(2, 0, 0, 1, ["a", "b"], 1, True, []), (2, 0, 1, 1, ["a"], 1, False, ["a", "b"])]     # exhaustive check only
+    else:
+        small = (2, 1, 0, 1, ["a"], 1, False, [])
+        apiinst = (2, 1, 1, 1, [], 0, False, ["a", "b"])
+        bigs = [(2, 1, 1, 1, ["a", "b"], 2, True, ["a", "b"])]
 
-    def ideal_job(c):
-        return c.tlc("PeerReg", "MC.cfg", files={"MC.cfg": cfg(*small, emit=True)}, name="PeerReg-replayed", workers=2 if ctx.quick() else 4)
+    def ideal_job(bounds, name):
+        def job(c):
+            fn = "MC-%s.cfg" % name
+            return c.tlc("PeerReg", fn, files={fn: cfg(*bounds, emit=True)}, name="PeerReg-" + name, workers=2 if ctx.quick() else 4)
+        return job
 
     def dev_job(d):
         def job(c):
@@ -44,22 +56,26 @@ def model(ctx):
             return c.tlc("PeerReg", fn, files={fn: cfg(*DEVCFG[d], dev=[d])}, expect_violation=True,
                          name="PeerReg-" + d, workers=2)
         return job
-    res = par(ctx, [ideal_job] + [dev_job(d) for d in DEVS])
-    ideal = res[0]
-    if ideal.violated:
-        raise vf.Infra("ideal PeerReg spec violates %s (specification error)" % ideal.violated)
+    res = par(ctx, [ideal_job(small, "replayed"), ideal_job(apiinst, "replayed-api")] + [dev_job(d) for d in DEVS])
+    ideals = res[:2]
+    for r in ideals:
+        if r.violated:
+            raise vf.Infra("ideal PeerReg spec violates %s (specification error)" % r.violated)
     caught, seeds = {}, []
-    for d, r in zip(DEVS, res[1:]):
+    for d, r in zip(DEVS, res[2:]):
         if not r.violated:
             raise vf.Infra("deviation %s not detected (vacuous model)" % d)
         caught[d] = r.violated
         seeds.append({"name": d, "steps": trace_actions(r)})
-    return {"small": small, "big": big, "ideal": ideal, "caught": caught, "seeds": seeds}
+    return {"small": small, "apiinst": apiinst, "bigs": bigs, "ideals": ideals, "caught": caught, "seeds": seeds}
 
 
 def replay(ctx, mdl, shards=None):
-    cover = vf.path_cover if len(mdl["ideal"].edges) <= 20000 else big_path_cover
-    paths, nnodes, nedges = cover(mdl["ideal"].edges)
+    paths, nnodes, nedges = [], 0, 0
+    for r in mdl["ideals"]:
+        cover = vf.path_cover if len(r.edges) <= 20000 else big_path_cover
+        p, n, e = cover(r.edges)
+        paths, nnodes, nedges = paths + p, nnodes + n, nedges + e
     ctx.rng.shuffle(paths)
     if os.environ.get("VERIF_CORRUPT"):
         # binding self-test: corrupt ONE expected state (the route survives... is claimed lost after a stale teardown /
@@ -86,16 +102,20 @@ def replay(ctx, mdl, shards=None):
                                  "ZZV_RACE_LOCKSTEP": lock_rounds, "ZZV_RACE_FREE": free_rounds})
         return job
 
-    def big_job(c):
-        return c.tlc("PeerReg", "MCbig.cfg", files={"MCbig.cfg": cfg(*mdl["big"])}, name="PeerReg-big", timeout=2400,
-                     workers=2 if ctx.quick() else 6)
-    res = par(ctx, [big_job] + [shard_job(i) for i in range(shards)])
-    r_big = res[0]
-    if r_big.violated:
-        raise vf.Infra("ideal PeerReg spec violates %s on the larger instance (specification error)" % r_big.violated)
-    mdl["r_big"] = r_big
+    def big_job(k, bounds):
+        def job(c):
+            fn = "MCbig%d.cfg" % k
+            return c.tlc("PeerReg", fn, files={fn: cfg(*bounds)}, name="PeerReg-big%d" % k, timeout=2400,
+                         workers=2 if ctx.quick() else 6)
+        return job
+    nb = len(mdl["bigs"])
+    res = par(ctx, [big_job(k, b) for k, b in enumerate(mdl["bigs"])] + [shard_job(i) for i in range(shards)])
+    for r_big in res[:nb]:
+        if r_big.violated:
+            raise vf.Infra("ideal PeerReg spec violates %s on the larger instance (specification error)" % r_big.violated)
+    mdl["r_bigs"] = res[:nb]
     recs, summ = [], []
-    for r in res[1:]:
+    for r in res[nb:]:
         s = r.of("summary")
         if not s:
             raise vf.Infra("peerreg replay harness produced no summary:\n" + r.out[-3000:])
@@ -120,6 +140,8 @@ def explain(mm):
     a = mm.get("a", {})
     fields = mm.get("fields") or []
     oracle = " ".join(mm.get("oracle") or [])
+    if "dead generation" in oracle:
+        return "DevSkipCleanupWhenSuperseded"
     if "dead frames" in oracle:
         return "DevRejectedStillReads"
     if "duplicate:" in oracle:
